@@ -15,3 +15,16 @@ M = [
  ('c06-cb-truthy', 'C06', 'teneva/cross.py', "info['stop'] = info['stop'] or 'cb'", "info['stop'] = 'cb' if info['nswp'] > 1 else info['stop']", 'cb ignored at first sweep'),
  ('c06-budget-new-cache', 'C06', 'teneva/cross.py', "if info['m_max'] is not None and info['m'] + len(I_new) > info['m_max']:", "if info['m_max'] is not None and info['m'] + len(I) > info['m_max']:", 'cached budget test uses len(I)'),
 ]
+
+M += [
+ ('c01-add-blocks', 'C01', 'teneva/act_two.py', "            L1 = np.concatenate([G1, Z1], axis=2)\n            L2 = np.concatenate([Z2, G2], axis=2)", "            L1 = np.concatenate([Z1, G1], axis=2)\n            L2 = np.concatenate([G2, Z2], axis=2)", 'middle-core zero blocks swapped'),
+ ('c01-mean-slice', 'C01', 'teneva/act_one.py', "            p = P[i][:k]", "            p = P[i][-k:]", 'mean cuts the weights from the wrong end'),
+ ('c01-interface-P', 'C01', 'teneva/act_one.py', "        if P is not None and not isinstance(P[0], (int, float)):\n            P = P[::-1]\n", "", 'interface does not reverse P under ltr'),
+ ('c01-mul-kron', 'C01', 'teneva/act_two.py', "        G = G.reshape([G1.shape[0]*G2.shape[0], -1, G1.shape[-1]*G2.shape[-1]])\n        Y.append(G)", "        G = G.reshape([G1.shape[0]*G2.shape[0], -1, G1.shape[-1]*G2.shape[-1]], order='F' if len(Y) == 1 and len(Y1) > 2 else 'C')\n        Y.append(G)", 'Kronecker order differs on the second core of d>=3'),
+ ('c01-sub-num', 'C01', 'teneva/act_two.py', "        Y2 = teneva.const(teneva.shape(Y1), -1.*Y2)", "        Y2 = teneva.const(teneva.shape(Y1), -1.*abs(Y2))", 'sub with negative number'),
+ ('c01-erank-d2', 'C01', 'teneva/props.py', "    if d == 2:\n        return r[1]", "    if d == 2:\n        return r[0]", 'erank d=2 branch'),
+ ('c01-grad', 'C01', 'teneva/act_one.py', "        Q[:, k, :] = np.outer(p_l, p_r)", "        Q[:, k, :] = np.outer(p_l, p_r) if Q.shape[0] <= Q.shape[2] else np.outer(p_l, p_r[::-1])", 'gradient reversed for tall cores'),
+ ('c01-getmany-last', 'C01', 'teneva/act_one.py', "    for Yk, k in zip(Y[1:], range(1, I.shape[-1])):", "    for Yk, k in zip(Y[1:], range(1, I.shape[-1])):\n        if I.shape[0] > 20 and k == I.shape[-1] - 1 and k > 1:\n            I = I.copy(); I[20:, k] = 0", 'get_many ignores the last index beyond 20 rows'),
+ ('c01-natural', 'C01', 'teneva/act_one.py', "                phi[k] /= Y[k].shape[1]", "                phi[k] /= Y[k].shape[0] if ltr else Y[k].shape[1]", 'natural norm under ltr'),
+ ('c01-outer-alias', 'C01', 'teneva/act_two.py', "    Y = teneva.copy(Y1)\n    Y.extend(teneva.copy(Y2))\n    return Y", "    Y = teneva.copy(Y1)\n    Y.extend(teneva.copy(Y2)[::-1] if len(Y2) == 2 and Y2[0].shape[1] == Y2[1].shape[1] else teneva.copy(Y2))\n    return Y", 'outer reverses a symmetric-shaped 2-core factor'),
+]
